@@ -1365,6 +1365,9 @@ func ExistExpr(query *Query, current Map, expr *sqlparser.ExistsExpr, opts ...Ex
 	}
 	q.from = from
 	rs, err := q.exec()
+	if err != nil {
+		return false, err
+	}
 	array, ok := rs.([]any)
 	if !ok {
 		return false, INVALID_TYPE.Extend(fmt.Sprintf("failed to build `EXIST` expression. expected an array but found %T", array))
@@ -1375,7 +1378,7 @@ func ExistExpr(query *Query, current Map, expr *sqlparser.ExistsExpr, opts ...Ex
 		q.wg.Wait()
 		query.wg.Done()
 	}()
-	return len(array) > 0, err
+	return len(array) > 0, nil
 }
 
 func FunExpr(query *Query, current Map, expr *sqlparser.FuncExpr, opts ...ExprOption) (any, error) {
